@@ -83,10 +83,12 @@ ReqChain(a, out, o) ==
     (* webpki refuses a CA certificate in the end-entity position (documented); OpenSSL alone judges those chains *)
     (* a certificate whose subject equals its issuer's name although another key signed it ("self-issued") is    *)
     (* treated as a self-signed root by path builders: such chains (they arise in sessions) are not judged        *)
+    (* two CA certificates of one path under one subject name (only sessions produce them): OpenSSL looks issuers up by name and *)
+    (* does not try the other one after a signature failure; its verdict is not demanded there                                   *)
     (* a CA with name constraints may rightly refuse the fixed names of the test leaf: C12 judges constraints *)
     <<"C03.validators_accept_chain", a.ca.isCa /\ a.timeInside /\ o.leafSubjectRaw # o.leafIssuerRaw
                                        /\ ~("caHasNameConstraints" \in DOMAIN a /\ a.caHasNameConstraints) =>
-                                       o.openssl.accept /\ (a.leafIsCa \/ o.webpki.accept)>>
+                                       (o.openssl.accept \/ ("issuerNamesAmbiguous" \in DOMAIN a /\ a.issuerNamesAmbiguous)) /\ (a.leafIsCa \/ o.webpki.accept)>>
   }
 
 (* ---- implementation-shaped import of a foreign name (lib.rs DistinguishedName::from_name) ---- *)
